@@ -199,4 +199,77 @@ theorem runFixed_eq (p : Pat) (hp : 0 < p.length) (T : List Char) (chunks : List
     omega
 
 
+
+/-! ### FailingResponder -/
+
+/-- a text without occurrences has no occurrence in any prefix -/
+theorem findall_prefix_nil (p : Pat) (hp : 0 < p.length) (a b : List Char) (h : findall p (a ++ b) = []) :
+    findall p a = [] := by
+  unfold findall at *
+  cases hl : (starts p 0 0 a).getLast? with
+  | none => simpa using hl
+  | some s =>
+    have := starts_append p hp 0 0 a b s hl
+    rw [this] at h
+    have hne : starts p 0 0 a ≠ [] := by intro e; simp [e] at hl
+    simp at h
+    exact absurd h.1 hne
+
+theorem submit_zero_of_nil (p : Pat) (stream : List Char) (h : findall p stream = []) : submit p 0 stream = (0, 0) := by
+  simp [submit, h]
+
+theorem submit_zero_of_ne (p : Pat) (stream : List Char) (h : findall p stream ≠ []) : (submit p 0 stream).2 ≠ 0 := by
+  simp only [submit, List.drop_zero]
+  cases hl : (findall p stream).getLast? with
+  | none => exact absurd (by simpa using hl) h
+  | some s => simp; exact h
+
+/-- no sentinel anywhere in the output ⇒ no read ever raises -/
+theorem frun_never_raises (p sent : Pat) (hs : 0 < sent.length) (s : FState) (T : List Char) (chunks : List (List Char))
+    (hf : s.fidx = 0) (h : findall sent (T ++ chunks.flatten) = []) :
+    none ∉ frun p sent s T chunks := by
+  induction chunks generalizing s T with
+  | nil => simp [frun]
+  | cons c cs ih =>
+    have hc : findall sent (T ++ c) = [] := by
+      apply findall_prefix_nil sent hs (T ++ c) cs.flatten
+      simpa [List.append_assoc] using h
+    have hsub : submit sent s.fidx (T ++ c) = (0, 0) := by rw [hf]; exact submit_zero_of_nil sent _ hc
+    simp only [frun, fsubmit, hsub]
+    simp only [bne_self_eq_false, Bool.and_false, Bool.false_eq_true, if_false]
+    simp only [List.mem_cons, reduceCtorEq, false_or]
+    apply ih
+    · rfl
+    · simpa [List.append_assoc] using h
+
+/-- the sentinel arriving in a later read - after at least one completed read, which is when the
+    code considers the responder to have "tried" - raises exactly at that read -/
+theorem frun_raises_at (p sent : Pat) (hs : 0 < sent.length) (pre : List (List Char)) (c : List Char)
+    (rest : List (List Char)) (s : FState) (T : List Char) (hf : s.fidx = 0)
+    (ht : s.tried = true ∨ pre ≠ [])
+    (h1 : findall sent (T ++ pre.flatten) = [])
+    (h2 : findall sent (T ++ pre.flatten ++ c) ≠ []) :
+    ∃ outs : List Nat, outs.length = pre.length ∧
+      frun p sent s T (pre ++ c :: rest) = outs.map some ++ [none] := by
+  induction pre generalizing s T with
+  | nil =>
+    have htr : s.tried = true := by rcases ht with h | h; exact h; exact absurd rfl h
+    refine ⟨[], rfl, ?_⟩
+    have hne : (submit sent s.fidx (T ++ c)).2 ≠ 0 := by
+      rw [hf]; apply submit_zero_of_ne; simpa using h2
+    simp only [List.nil_append, frun, fsubmit, htr, Bool.true_and]
+    have : ((submit sent s.fidx (T ++ c)).2 != 0) = true := by simpa using hne
+    simp [this]
+  | cons x xs ih =>
+    have hx : findall sent (T ++ x) = [] := by
+      apply findall_prefix_nil sent hs (T ++ x) xs.flatten
+      simpa [List.append_assoc] using h1
+    have hsub : submit sent s.fidx (T ++ x) = (0, 0) := by rw [hf]; exact submit_zero_of_nil sent _ hx
+    obtain ⟨outs, hl, he⟩ := ih { idx := (submit p s.idx (T ++ x)).1, fidx := 0, tried := true } (T ++ x) rfl (Or.inl rfl)
+      (by simpa [List.append_assoc] using h1) (by simpa [List.append_assoc] using h2)
+    refine ⟨(submit p s.idx (T ++ x)).2 :: outs, by simp [hl], ?_⟩
+    simp only [List.cons_append, frun, fsubmit, hsub]
+    simp only [bne_self_eq_false, Bool.and_false, Bool.false_eq_true, if_false]
+    rw [he]; simp
+
 end Inv
